@@ -149,4 +149,23 @@ theorem initDers_affine_legacy (s : Sys) (c : Mem) (X : Vec) :
   intro v _
   rfl
 
+/-! ### cache clearing -/
+
+/-- if `clear_transcription_cache()` resets every slot that `transcribe()` reads when cached, the
+    transcription after a clear is the transcription of a fresh object with the current data — whatever
+    the cache held (history-free) -/
+theorem clear_then_fresh {α β : Type} (slots cl : List String) (h : ∀ s ∈ slots, s ∈ cl)
+    (build : α → String → β) (d : α) (cache : Cache β) :
+    transcribeWith slots build d (clearSlots cl cache) = transcribeWith slots build d (fun _ => none) := by
+  unfold transcribeWith
+  apply List.map_congr_left
+  intro s hs
+  simp [useSlot, clearSlots, h s hs]
+
+/-- … and a slot that is read but not cleared keeps what was built from the OLD data -/
+theorem stale_slot_witness :
+    transcribeWith ["a", "b"] (fun (d : Nat) _ => d) 2 (clearSlots ["a"] (fun _ => some 1)) = [2, 1]
+    ∧ transcribeWith ["a", "b"] (fun (d : Nat) _ => d) 2 (fun _ => none) = [2, 2] := by
+  decide
+
 end RtcVerif.C01
